@@ -20,6 +20,9 @@
  *               shift_setpos(); options nmax=10 (largest |N|), ytill=2023
  *   options: nlist=all|quick (all: -366..366; quick: -8..8, +-31, +-258..262, +-300, +-366), nocount=1
  * mode=timed    SHIFT on rules with a time of day and a BYHOUR/BYMINUTE/BYSECOND list, see shift_timed()
+ * mode=carry    BYEASTER with INTERVAL (and SHIFT), and sequences of BYEASTER rules expanded one after the other in one
+ *               process (each against the computus, the second one also against a process of its own), see crule_judge();
+ *               option alone=0 leaves the child process out
  *
  * oracle (no more than README + property text):
  *   SHIFT=N      image = date + N days.
@@ -36,6 +39,10 @@
  */
 #include "vdrv.h"
 #include <stdbool.h>
+#include <errno.h>
+#include <unistd.h>
+#include <sys/types.h>
+#include <sys/wait.h>
 #include "scale.h"
 #include "evstrm.h"
 #include "ref/icalio.h"
@@ -1340,6 +1347,287 @@ shift_timed(const struct spec_s *sp, int f, int il, int cmax)
 	}
 }
 
+/* ---------- BYEASTER with INTERVAL, and state carried from one expansion to the next (mode=carry) ---------- */
+
+/* DTSTART y0-01-01, FREQ=YEARLY[;INTERVAL=inter];BYEASTER=N[;SHIFT=cshift[sh]][;COUNT=count] */
+struct crule_s {
+	int y0, inter, N, sh, count;
+};
+static const struct spec_s cshift[] = {{F_DAY, 0, false, ""}, {F_B, 1, false, "1B"}, {F_B, -1, false, "-1B"}};
+#define NCSHIFT	((int)(sizeof(cshift) / sizeof(*cshift)))
+#define CARRY_MAX	40
+/* the images of Easter 2100 (from 2099-12 on for N = -102) are left out as in mode=easter: 2100 is outside the property's range */
+#define CARRY_ZSTOP	cvl_days(2098, 12, 31)
+
+static void
+crule_lines(char *buf, size_t bsz, const struct crule_s *r)
+{
+	size_t o = (size_t)snprintf(buf, bsz, "DTSTART;VALUE=DATE:%04d0101\nRRULE:FREQ=YEARLY", r->y0);
+	if (r->inter > 1) o += (size_t)snprintf(buf + o, bsz - o, ";INTERVAL=%d", r->inter);
+	o += (size_t)snprintf(buf + o, bsz - o, ";BYEASTER=%d", r->N);
+	if (r->sh) o += (size_t)snprintf(buf + o, bsz - o, ";SHIFT=%s", cshift[r->sh].txt);
+	if (r->count) o += (size_t)snprintf(buf + o, bsz - o, ";COUNT=%d", r->count);
+	snprintf(buf + o, bsz - o, "\n");
+}
+
+static const char*
+crule_str(char *buf, size_t bsz, const struct crule_s *r)
+{
+	crule_lines(buf, bsz, r);
+	for (char *q = buf; *q; q++) if (*q == '\n') *q = ' ';
+	return buf;
+}
+
+static int
+crule_run(long *obs, int nmax, const struct crule_s *r, bool *ended)
+{
+	char lines[256];
+	crule_lines(lines, sizeof(lines), r);
+	return run_stream(obs, nmax, lines, CARRY_ZSTOP, ended);
+}
+
+/* the same in a process in which nothing has been expanded before.  A child made by fork() inherits whatever the
+ * expansions so far left behind in this process, so a server process is forked off before the first expansion of the
+ * mode; for every request it forks a child of its own (a copy of its untouched state) which expands the rule and
+ * answers on the pipe. */
+struct cres_s {
+	int n, ended;
+	long z[CARRY_MAX];
+};
+struct creq_s {
+	struct crule_s r;
+	int nmax;
+};
+static int carry_req = -1, carry_rsp = -1;
+
+static bool
+rd_full(int fd, void *buf, size_t n)
+{
+	for (size_t got = 0; got < n;) {
+		const ssize_t k = read(fd, (char*)buf + got, n - got);
+		if (k < 0 && errno == EINTR) continue;
+		if (k <= 0) return false;
+		got += (size_t)k;
+	}
+	return true;
+}
+
+static void
+carry_server_start(void)
+{
+	int rq[2], rs[2];
+	pid_t p;
+
+	if (pipe(rq) < 0 || pipe(rs) < 0 || (p = fork()) < 0) {
+		fprintf(stderr, "c17: carry: cannot start the server process\n");
+		_exit(3);
+	} else if (p == 0) {
+		struct creq_s q;
+		close(rq[1]), close(rs[0]);
+		while (rd_full(rq[0], &q, sizeof(q))) {
+			struct cres_s res;
+			int st = 0;
+			pid_t g = fork();
+			if (g == 0) {
+				bool e = false;
+				memset(&res, 0, sizeof(res));
+				res.n = crule_run(res.z, q.nmax, &q.r, &e);
+				res.ended = e;
+				_exit(write(rs[1], &res, sizeof(res)) != (ssize_t)sizeof(res));
+			}
+			while (g > 0 && waitpid(g, &st, 0) < 0 && errno == EINTR);
+			if (g < 0 || !WIFEXITED(st) || WEXITSTATUS(st)) {
+				memset(&res, 0, sizeof(res));
+				res.n = -2;
+				if (write(rs[1], &res, sizeof(res)) < 0) _exit(1);
+			}
+		}
+		_exit(0);
+	}
+	close(rq[0]), close(rs[1]);
+	carry_req = rq[1], carry_rsp = rs[0];
+}
+
+static void
+carry_server_stop(void)
+{
+	if (carry_req >= 0) {
+		close(carry_req), close(carry_rsp);
+		carry_req = carry_rsp = -1;
+		while (wait(NULL) < 0 && errno == EINTR);
+	}
+}
+
+static int
+crule_run_alone(long *obs, int nmax, const struct crule_s *r, bool *ended)
+{
+	struct creq_s q;
+	struct cres_s res;
+
+	memset(&q, 0, sizeof(q));
+	q.r = *r;
+	q.nmax = nmax > CARRY_MAX ? CARRY_MAX : nmax;
+	if (carry_req < 0 || write(carry_req, &q, sizeof(q)) != (ssize_t)sizeof(q) || !rd_full(carry_rsp, &res, sizeof(res))) {
+		return -2;
+	}
+	*ended = res.ended;
+	for (int i = 0; i < res.n && i < q.nmax; i++) obs[i] = res.z[i];
+	return res.n;
+}
+
+/* judge what was read of rule R (NO occurrences, reading stopped after NMAX, at the end of the stream or behind 2099)
+ * against the reference: the sources are Easter(y)+N; y is a period year when (y - y0) is a multiple of INTERVAL.
+ * A source of a period year that lands, with all its images, in that same year on or after DTSTART must occur;
+ * a source that only lands in a period year, or leaves its period year (N = -102, a shifted 31 December) may or may not
+ * (the README does not say to which year's period such a day belongs); nothing else may occur, in strictly increasing
+ * order.  Returns NULL when fine, else the kind of the violation and the text in MSG. */
+static const char*
+crule_judge(const struct crule_s *r, const long *obs, int no, bool ended, int nmax, char *msg, size_t msz)
+{
+	const struct spec_s *sp = &cshift[r->sh];
+	const long z0 = cvl_days(r->y0, 1, 1), zstop = CARRY_ZSTOP;
+	char b1[48], b2[48], b3[48], rs[256];
+	int j = 0;
+
+	crule_str(rs, sizeof(rs), r);
+	if (no < 0) {
+		snprintf(msg, msz, "%s: the parser gave no recurring task", rs);
+		return "no-stream";
+	} else if (nbad) {
+		snprintf(msg, msz, "%s: %d occurrences are not all-day dates of the calendar, first: %s", rs, nbad, badstr(b1, sizeof(b1)));
+		return "not-a-date";
+	} else if (r->count && no > r->count) {
+		snprintf(msg, msz, "%s: %d occurrences", rs, no);
+		return "count-exceeded";
+	}
+	for (int y = r->y0 - 2; y <= 2101; y++) {
+		const struct cmp_md_s e = cmp_easter(y);
+		const long z = cvl_days(y, e.m, e.d) + r->N;
+		const int ly = year_of(z);
+		const bool py = y >= r->y0 && (y - r->y0) % r->inter == 0;
+		const bool pl = ly >= r->y0 && (ly - r->y0) % r->inter == 0;
+		bool def = py && ly == y, allin = true, allout = true, pimg = false;
+		struct src_s s;
+
+		s.valid = true;
+		s.z = z;
+		s.nimg = images(s.img, sp, z);
+		for (int q = 0; q < s.nimg; q++) {
+			const bool in = s.img[q] >= z0 && s.img[q] <= zstop;
+			const int iy = year_of(s.img[q]);
+			allin &= in;
+			allout &= !in;
+			def &= iy == y;
+			pimg |= iy >= r->y0 && (iy - r->y0) % r->inter == 0;
+		}
+		if (allout || (!py && !pl && !pimg)) continue;
+		def &= allin && z >= z0;
+		if (j < no && img_has(&s, obs[j])) {
+			j++;
+			continue;
+		} else if (!def) {
+			continue;
+		} else if (j >= no) {
+			if (no >= nmax || (r->count && no >= r->count)) {
+				/* the reader, or COUNT, stopped it */
+				return NULL;
+			}
+			snprintf(msg, msz, "%s: Easter %d is %s, so %s%s%s is expected as occurrence %d but the stream %s after %d", rs, y, zstr(b1, sizeof(b1), z - r->N),
+				 zstr(b2, sizeof(b2), s.img[0]), s.nimg > 1 ? " or " : "", s.nimg > 1 ? zstr(b3, sizeof(b3), s.img[1]) : "", j + 1,
+				 ended ? "has ended" : "is behind 2098", no);
+			return "missing";
+		}
+		snprintf(msg, msz, "%s: occurrence %d is %s; Easter %d is %s, so %s%s%s is expected there", rs, j + 1, zstr(b1, sizeof(b1), obs[j]), y,
+			 zstr(b2, sizeof(b2), z - r->N), zstr(b3, sizeof(b3), s.img[0]), s.nimg > 1 ? " or the business day after" : "", "");
+		return obs[j] < s.img[0] ? "extra" : "wrong-date";
+	}
+	if (j < no) {
+		snprintf(msg, msz, "%s: occurrence %d is %s, the image of no Easter", rs, j + 1, zstr(b1, sizeof(b1), obs[j]));
+		return "extra";
+	}
+	return NULL;
+}
+
+static const char*
+crule_class(char *buf, size_t bsz, const struct crule_s *r)
+{
+	snprintf(buf, bsz, "%s/%s/%s", r->inter > 1 ? "interval-ge2" : "interval-1", r->N == 0 ? "N=0" : r->N > 0 ? "N-pos" : "N-neg",
+		 r->sh ? cshift[r->sh].txt : "no-shift");
+	return buf;
+}
+
+/* (a) one rule, 30 occurrences (or to the end of 2098) */
+static void
+carry_single(const struct crule_s *r)
+{
+	long obs[CARRY_MAX];
+	char msg[600], sig[160], cl[64];
+	bool ended = false;
+	const int no = crule_run(obs, 30, r, &ended);
+	const char *kind = crule_judge(r, obs, no, ended, 30, msg, sizeof(msg));
+
+	vd_sh->evals++;
+	if (kind != NULL) {
+		snprintf(sig, sizeof(sig), "carry-single-%s/%s", kind, crule_class(cl, sizeof(cl), r));
+		vd_viol(sig, "%s", msg);
+	}
+}
+
+/* (b) A, then B, then A again in one process; B alone in a process of its own */
+static void
+carry_seq(const struct crule_s *A, const struct crule_s *B, int gap, bool alone)
+{
+	long oa[CARRY_MAX], ob[CARRY_MAX], oa2[CARRY_MAX], ox[CARRY_MAX];
+	char msg[600], sig[200], cl[64], ra[256];
+	bool ea = false, eb = false, ea2 = false, ex = false;
+	const char *gcl = gap < 0 ? "starts-earlier" : gap <= 1 ? "starts-adjacent" : "starts-2-or-more-years-later";
+	const int nma = A->count + 2, nmb = B->count + 2;
+	const char *kind;
+	int na, nb, na2, nx;
+
+	crule_str(ra, sizeof(ra), A);
+	na = crule_run(oa, nma, A, &ea);
+	if ((kind = crule_judge(A, oa, na, ea, nma, msg, sizeof(msg))) != NULL) {
+		snprintf(sig, sizeof(sig), "carry-first-%s/%s", kind, crule_class(cl, sizeof(cl), A));
+		vd_viol(sig, "%s", msg);
+	}
+	nb = crule_run(ob, nmb, B, &eb);
+	if ((kind = crule_judge(B, ob, nb, eb, nmb, msg, sizeof(msg))) != NULL) {
+		snprintf(sig, sizeof(sig), "carry-second-%s/%s/%s", kind, gcl, crule_class(cl, sizeof(cl), B));
+		vd_viol(sig, "after the expansion of %s: %s", ra, msg);
+	}
+	na2 = crule_run(oa2, nma, A, &ea2);
+	if ((kind = crule_judge(A, oa2, na2, ea2, nma, msg, sizeof(msg))) != NULL) {
+		snprintf(sig, sizeof(sig), "carry-third-%s/%s/%s", kind, gcl, crule_class(cl, sizeof(cl), A));
+		vd_viol(sig, "expanded a second time, after %s: %s", crule_str(ra, sizeof(ra), B), msg);
+	}
+	if (na != na2 || ea != ea2 || (na > 0 && memcmp(oa, oa2, sizeof(*oa) * (size_t)na))) {
+		char b1[48], b2[48];
+		int i = 0;
+		while (i < na && i < na2 && oa[i] == oa2[i]) i++;
+		snprintf(sig, sizeof(sig), "carry-repeat-differs/%s/%s", gcl, crule_class(cl, sizeof(cl), A));
+		vd_viol(sig, "%s gives %s as occurrence %d (%d in all), and %s (%d in all) when it is expanded again after %s", crule_str(ra, sizeof(ra), A),
+			i < na ? zstr(b1, sizeof(b1), oa[i]) : "nothing", i + 1, na, i < na2 ? zstr(b2, sizeof(b2), oa2[i]) : "nothing", na2, crule_str(msg, sizeof(msg), B));
+	}
+	vd_sh->evals += 3;
+	if (alone) {
+		nx = crule_run_alone(ox, nmb, B, &ex);
+		vd_sh->evals++;
+		if (nx == -2) {
+			fprintf(stderr, "c17: carry: child process failed\n");
+			_exit(3);
+		}
+		if (nx != nb || ex != eb || (nb > 0 && memcmp(ob, ox, sizeof(*ob) * (size_t)nb))) {
+			char b1[48], b2[48], rb[256];
+			int i = 0;
+			while (i < nb && i < nx && ob[i] == ox[i]) i++;
+			snprintf(sig, sizeof(sig), "carry-differs-from-alone/%s/%s", gcl, crule_class(cl, sizeof(cl), B));
+			vd_viol(sig, "%s gives %s as occurrence %d (%d in all) after the expansion of %s, and %s (%d in all) in a process of its own", crule_str(rb, sizeof(rb), B),
+				i < nb ? zstr(b1, sizeof(b1), ob[i]) : "nothing", i + 1, nb, crule_str(ra, sizeof(ra), A), i < nx ? zstr(b2, sizeof(b2), ox[i]) : "nothing", nx);
+		}
+	}
+}
+
 static void
 enumerate(void)
 {
@@ -1508,6 +1796,52 @@ enumerate(void)
 				}
 			}
 		}
+	} else if (!strcmp(mode, "carry")) {
+		/* BYEASTER with INTERVAL, and what one expansion leaves behind for the next one in the same process */
+		static const int inters[] = {1, 2, 3, 4, 5, 7};
+		static const int offs[] = {0, -2, 1, 39, 49, -46, -102, 250};
+		static const int y0s[] = {1999, 2000, 2001, 2010, 2024};
+		static const int gaps[] = {-8, -1, 0, 1, 2, 3, 5, 10};
+		static const int ayears[] = {2000, 2003}, aoffs[] = {0, 39}, boffs[] = {0, -2, 1, 49, -46};
+		const bool alone = vd_opt_l("alone", 1) != 0;
+
+		if (alone) carry_server_start();
+		for (size_t ii = 0; ii < sizeof(inters) / sizeof(*inters); ii++) {
+			for (size_t in = 0; in < sizeof(offs) / sizeof(*offs); in++) {
+				if (!vd_next()) continue;
+				vd_desc("carry single: DTSTART;VALUE=DATE:1999|2000|2001|2010|20240101 RRULE:FREQ=YEARLY;INTERVAL=%d;BYEASTER=%d with SHIFT none|1B|-1B, 30 occurrences (to 2098)", inters[ii], offs[in]);
+				vd_shape("carry-single/%s/%s", inters[ii] > 1 ? "interval-ge2" : "interval-1", offs[in] == 0 ? "N=0" : offs[in] > 0 ? "N-pos" : "N-neg");
+				for (int sh = 0; sh < NCSHIFT; sh++) {
+					for (size_t iy = 0; iy < sizeof(y0s) / sizeof(*y0s); iy++) {
+						const struct crule_s r = {y0s[iy], inters[ii], offs[in], sh, 0};
+						carry_single(&r);
+					}
+				}
+				NONTRIVIAL();
+				if (vd_want_sample()) vd_sample("carry single: FREQ=YEARLY;INTERVAL=%d;BYEASTER=%d x SHIFT none|1B|-1B x 5 DTSTART years, 30 occurrences each against the computus", inters[ii], offs[in]);
+			}
+		}
+		for (size_t ay = 0; ay < 2; ay++) for (int ai = 1; ai <= 2; ai++) for (size_t an = 0; an < 2; an++) for (int ac = 1; ac <= 3; ac++) {
+			const struct crule_s A = {ayears[ay], ai, aoffs[an], 0, ac};
+			const int last = A.y0 + (ac - 1) * ai;
+			for (size_t ig = 0; ig < sizeof(gaps) / sizeof(*gaps); ig++) {
+				for (int bi = 1; bi <= 3; bi++) {
+					char ra[256];
+					if (!vd_next()) continue;
+					vd_desc("carry sequence: %s, then DTSTART;VALUE=DATE:%04d0101 RRULE:FREQ=YEARLY;INTERVAL=%d;BYEASTER=0|-2|1|49|-46 with SHIFT none|1B|-1B;COUNT=6, then the first again", crule_str(ra, sizeof(ra), &A), last + gaps[ig], bi);
+					vd_shape("carry-seq/%s/%s", gaps[ig] < 0 ? "starts-earlier" : gaps[ig] <= 1 ? "starts-adjacent" : "starts-2-or-more-years-later", bi > 1 ? "interval-ge2" : "interval-1");
+					for (size_t bn = 0; bn < sizeof(boffs) / sizeof(*boffs); bn++) {
+						for (int sh = 0; sh < NCSHIFT; sh++) {
+							const struct crule_s B = {last + gaps[ig], bi, boffs[bn], sh, 6};
+							carry_seq(&A, &B, gaps[ig], alone);
+						}
+					}
+					NONTRIVIAL();
+					if (vd_want_sample()) vd_sample("carry sequence: %s, then 15 rules from %d (INTERVAL=%d), then the first again; each against the computus, the second also against a process of its own", ra, last + gaps[ig], bi);
+				}
+			}
+		}
+		carry_server_stop();
 	} else {
 		fprintf(stderr, "unknown mode %s\n", mode);
 		_exit(3);
